@@ -249,8 +249,8 @@ Definition dmember_of (maxb : Z) (e : entry) : option dmember :=
       if has_prefix s_wh b then Some {| dm_path := removelast sg ++ [skipn 4%nat b]; dm_class := DCWhiteout |}
       else match e_kind e with
            | KDir => Some {| dm_path := sg; dm_class := DCDir |}
-           | KReg => if Z.of_nat (length (e_content e)) >=? maxb then None
-                     else Some {| dm_path := sg; dm_class := DCFile |}
+           (* a file at or above the size limit is not exposed, but it is still a member for D: the
+              implementation writes its first bytes to disk, which can collide with a same-named member *)
            | _ => Some {| dm_path := sg; dm_class := DCFile |}
            end
   end.
